@@ -433,7 +433,16 @@ fn plan(property: &str, tier: &str) -> Vec<(&'static str, &'static str, usize)> 
 
 pub fn add(run: &mut Run, kf: &KnownFindings, property: &str, tier: &str, wall: u64) {
     let classify = kf.classifier(property);
-    let mut plan = plan(property, tier);
+    // thorough = everything the quick tier explores (first), plus the deeper plan
+    let mut plan = if tier == "quick" {
+        plan(property, tier)
+    } else {
+        let deep = plan(property, tier);
+        let mut out: Vec<(&'static str, &'static str, usize)> =
+            plan(property, "quick").into_iter().filter(|(f, p, d)| !deep.iter().any(|(g, q, e)| g == f && q == p && e >= d)).collect();
+        out.extend(deep);
+        out
+    };
     // VERIF_VPLAN="bytes/raw:4,pco/dense:3" overrides the plan (calibration / debugging only).
     let leaked: &'static str =
         Box::leak(std::env::var("VERIF_VPLAN").unwrap_or_default().into_boxed_str());
